@@ -192,8 +192,9 @@ class Importer:
             >>> importer.import_string(content)
             >>> document = importer.import_string(content)
         """
-        lines = text.splitlines()
-        reader = csv.reader(lines, delimiter='\t', quoting=csv.QUOTE_NONE)
+        # Read the lines as import_file does: only \n, \r and \r\n end a line (str.splitlines() also splits on
+        # \x0b, \x0c, \x1c-\x1e, \x85, \u2028 and \u2029, which may occur inside a cell)
+        reader = csv.reader(io.StringIO(text, newline=''), delimiter='\t', quoting=csv.QUOTE_NONE)
         return self.run(reader)
 
     def get_error_messages(self) -> str:
